@@ -14,15 +14,18 @@ Correspondence / pipeline:
                 of every culture (same run as C11: cached)."""
 import datetime
 
-from lib import common, recog, dtpipe, dtcorpus
+from lib import common, recog, dtpipe, dtcorpus, periodcorr
 from lib.common import cps, uncps
 
 PROP = 'C10'
 LEVEL = 'proof'
-PROPS_MODULES = ['RTV.Props.C10']
+PROPS_MODULES = ['RTV.Props.C10', 'RTV.Props.C10Periods']
 GEN = ['chartables', 'durationmaps']
 REQUIRED_THEOREMS = ['duration_timex_reads_back', 'duration_value_matches_timex', 'luis_time_span_inverse',
-                     'between_dates_consistent', 'between_times_consistent', 'unit_tables_consistent']
+                     'between_dates_consistent', 'between_times_consistent', 'unit_tables_consistent',
+                     # Props/C10Periods: the range computations of BaseDatePeriodParser
+                     'simple_case_definite_ok', 'merge_definite_ok', 'merge_pairs_ordered', 'duration_days_weeks_ok',
+                     'month_with_year_wellformed', 'quarter_definite_ok', 'week_of_month_ranges', 'which_week_spec']
 RULE = ('N in {1,2,3,7,30,365,1000,5000} (quick: 3 of them per spelling) × every spelling of every culture\'s duration '
         'unit_map; ordered pairs of absolute dates and of clock times in English; every range entity over the '
         'Python-supported DateTime Specs inputs of all cultures; non-trivial = distinct query that produced an entity of '
@@ -101,6 +104,9 @@ def correspond(ctx):
         if not vs[0][2]:
             ctx.report('correspondence', 'generate_date_period_timex', 'the triple %r is rejected by tripleOK' % e['values'][0],
                        failing_input=e, property_fails=True)
+
+    # the range computations of BaseDatePeriodParser (RTV.Model.Periods, theorems in Props/C10Periods) against the real methods
+    periodcorr.unit(ctx, n_refs=120)
 
     # ------------------------------------------------------------- pipeline (a): N × spelling
     jobs, meta = [], []
